@@ -89,6 +89,12 @@ def entry_points(text, strict, env, files=True, native=True):
     yield "loads", None, text, lambda: simfile.loads(text, strict=strict)
     yield "load(StringIO)", None, text, lambda: simfile.load(io.StringIO(text), strict=strict)
     yield "load(iter(lines))", None, text, lambda: simfile.load(iter(lines), strict=strict)
+    if strict:
+        # the documented default is strict parsing: the same calls without the argument
+        yield "loads (default strict)", None, text, lambda: simfile.loads(text)
+        yield "load(StringIO) (default strict)", None, text, lambda: simfile.load(io.StringIO(text))
+        yield "SMSimfile(string=) (default strict)", "sm", text, lambda: SMSimfile(string=text)
+        yield "SSCSimfile(file=StringIO) (default strict)", "ssc", text, lambda: SSCSimfile(file=io.StringIO(text))
     yield "SMSimfile(string=)", "sm", text, lambda: SMSimfile(string=text, strict=strict)
     yield "SSCSimfile(string=)", "ssc", text, lambda: SSCSimfile(string=text, strict=strict)
     yield "SMSimfile(file=StringIO)", "sm", text, lambda: SMSimfile(file=io.StringIO(text), strict=strict)
@@ -108,6 +114,8 @@ def entry_points(text, strict, env, files=True, native=True):
         # MemoryFS text streams do no newline translation (newline=''): they see the text as it is
         yield f"load(MemoryFS file {name})", fmt, text, mem_load
         yield f"open({name}, MemoryFS)", fmt, text, lambda name=name: simfile.open(name, strict=strict, filesystem=env.mem)
+        if strict and name == "x.txt":
+            yield f"open({name}, MemoryFS) (default strict)", fmt, text, lambda name=name: simfile.open(name, filesystem=env.mem)
         if native:
             def nat_load(name=name):
                 with open(name, "r", encoding="utf-8") as f:
@@ -177,13 +185,21 @@ def check_ssc_chart(text):
         try:
             ch = SSCChart.from_str(text, strict=strict)
             obs = ("ok", list(ch.items()))
+            if strict and list(SSCChart.from_str(text).items()) != obs[1]:
+                obs = ("ok", "differs when strict is left at its default")
         except core.WatchdogTimeout:
             raise
         except BaseException as e:
             obs = ("exc", type(e).__name__, str(e)[:80])
+            if strict:
+                try:
+                    SSCChart.from_str(text)
+                    obs = ("ok", "accepted when strict is left at its default")
+                except BaseException:
+                    pass
         n += 1
         if exp[0] == "ok":
-            ok = obs[0] == "ok" and X._norm_items(obs[1]) == X._norm_items(exp[1])
+            ok = obs[0] == "ok" and isinstance(obs[1], list) and X._norm_items(obs[1]) == X._norm_items(exp[1])
         else:
             ok = obs[0] == "exc" and obs[1] in exp[1]
         if not ok:
